@@ -117,6 +117,11 @@ func runCase(c *Case) (string, string) {
 	gate := make(chan struct{})
 	parent, cancelParent := context.WithCancel(context.Background())
 	defer cancelParent()
+	if c.Ending == "deadline" {
+		// like "cancel", but the context ends with DeadlineExceeded
+		ectx := vkit.NewExpiringContext(parent)
+		parent, cancelParent = ectx, ectx.Expire
+	}
 
 	s := &srv.Service{Name: "svc"}
 	s.Run = func(ctx context.Context) (err error) {
@@ -311,7 +316,7 @@ func runCase(c *Case) (string, string) {
 			go func(i int) { defer cwg.Done(); y(i + 5); w.markEnded(); s.Close() }(i)
 		}
 		cwg.Wait()
-	case "cancel":
+	case "cancel", "deadline":
 		y(6)
 		w.markEnded()
 		cancelParent()
@@ -395,7 +400,7 @@ func genCase(t *rapid.T) *Case {
 		Shutdown:     oc.Draw(t, "shutdown"),
 		Cleanup:      oc.Draw(t, "cleanup"),
 		Handler:      rapid.SampledFrom([]string{"absent", "ok", "ok", "panic"}).Draw(t, "handler"),
-		Ending:       rapid.SampledFrom([]string{"self", "self-gated", "close", "cancel", "cancel-before-start"}).Draw(t, "ending"),
+		Ending:       rapid.SampledFrom([]string{"self", "self-gated", "close", "cancel", "deadline", "cancel-before-start"}).Draw(t, "ending"),
 		Starters:     rapid.IntRange(1, 6).Draw(t, "starters"),
 		Closers:      rapid.IntRange(0, 3).Draw(t, "closers"),
 		Waiters:      rapid.IntRange(0, 3).Draw(t, "waiters"),
